@@ -319,6 +319,88 @@ pub fn families() -> Vec<Box<dyn Family>> {
             },
         ),
         family(
+            "aliased",
+            "old and new are ALIASING views of one buffer: a text and a prefix / suffix / inner part of the very same allocation (s vs &s[..k], &s[k..], s vs s.trim_end()) x 5 tokenizers x 3 algorithms: remapper and one-call helpers",
+            false,
+            16,
+            |cfg| cfg.n(3_000, 60_000),
+            |idx, cfg, out| {
+                let mut rng = Rng::for_case(cfg.seed, "c17.aliased", idx);
+                let (t, _) = text_gen::text_pair(&mut rng, if cfg.tiny { 2 } else { 6 }, false);
+                let s = String::from_utf8(t).unwrap();
+                // char boundaries
+                let cuts: Vec<usize> = s.char_indices().map(|x| x.0).chain(std::iter::once(s.len())).collect();
+                let k = cuts[rng.below(cuts.len())];
+                let (a, b): (&str, &str) = match rng.below(5) {
+                    0 => (&s[..], &s[..k]),
+                    1 => (&s[..k], &s[..]),
+                    2 => (&s[..], &s[k..]),
+                    3 => (&s[..], s.trim_end()),
+                    _ => {
+                        let k2 = cuts[rng.below(cuts.len())];
+                        (&s[..k.max(k2)], &s[..k.min(k2)])
+                    }
+                };
+                out.sample(|| format!("old={:?} new={:?} (views of one buffer)", a, b));
+                if a != b {
+                    out.nontrivial(&(a, b));
+                }
+                out.count("aliased_pairs");
+                case(a.as_bytes(), b.as_bytes(), out);
+            },
+        ),
+        family(
+            "four_gib",
+            "a text of 4 GiB + 16 bytes (zero pages, two tokens) through diff_slices + TextDiffRemapper: offsets beyond u32::MAX",
+            true,
+            1,
+            |cfg| if cfg.tiny { 0 } else { 1 },
+            |_idx, _cfg, out| {
+                // skip quietly where 4 GiB of address space cannot be reserved
+                let mut probe: Vec<u8> = Vec::new();
+                if probe.try_reserve_exact((4usize << 30) + 24).is_err() {
+                    out.count("four_gib_skipped_no_memory");
+                    out.eval();
+                    return;
+                }
+                drop(probe);
+                out.eval();
+                out.nontrivial(&"4GiB");
+                out.sample(|| "4 GiB + 16 zero bytes split into two tokens vs the same with 8 more bytes".to_string());
+                let r = guard(|| {
+                    let big: Vec<u8> = vec![0u8; (4usize << 30) + 24];
+                    let old_text = &big[..(4usize << 30) + 16];
+                    let new_text = &big[..];
+                    let old_tokens: Vec<&[u8]> = vec![&old_text[..4usize << 30], &old_text[4usize << 30..]];
+                    let new_tokens: Vec<&[u8]> = vec![&new_text[..4usize << 30], &new_text[4usize << 30..]];
+                    let d = TextDiff::from_slices(&old_tokens, &new_tokens);
+                    let remapper = TextDiffRemapper::from_text_diff(&d, old_text, new_text);
+                    let mut fails = Vec::new();
+                    for op in d.ops() {
+                        for (tag, sl) in remapper.iter_slices(op) {
+                            let want_len: usize = match tag {
+                                ChangeTag::Insert => op.new_range().map(|i| new_tokens[i].len()).sum(),
+                                _ => op.old_range().map(|i| old_tokens[i].len()).sum(),
+                            };
+                            if sl.len() != want_len {
+                                fails.push(format!("{:?} slice of op {:?} has {} bytes, its tokens {}", tag, op, sl.len(), want_len));
+                            }
+                        }
+                    }
+                    (d.ops().to_vec(), fails)
+                });
+                match r {
+                    Err(p) => out.violation("panic", format!("remapping a 4 GiB text panicked: {}", p)),
+                    Ok((ops, fails)) => {
+                        out.count("four_gib_cases");
+                        for f in fails {
+                            out.violation("remap.not_concatenation_of_tokens", format!("4 GiB text: {} | ops {:?}", f, ops));
+                        }
+                    }
+                }
+            },
+        ),
+        family(
             "slices_rnd",
             "utils::diff_slices on seeded random item sequences x 3 algorithms: same reconstruction, no empty slice, slices are sub-slices of the inputs",
             false,
